@@ -31,7 +31,7 @@ func has(out []hx.Zs, prefix ...int64) bool {
 type impl struct{ w *stack.World }
 
 func newImpl() hx.Impl { return &impl{w: stack.New()} }
-func (m *impl) Close()  { m.w.Close() }
+func (m *impl) Close() { m.w.Close() }
 func (m *impl) Exec(op hx.Zs) []hx.Zs {
 	out := m.w.Exec(op)
 	if len(op) > 0 {
@@ -220,10 +220,21 @@ func gen(r *hx.Rng, tier string, i int) []hx.Zs {
 				h = append(h, stack.OpDisconnect(p.Ski))
 				connected[p.Ski] = false
 				features["disconnect"]++
-			} else {
+			} else if r.Chance(2, 3) {
 				h = append(h, stack.OpConnect(p.Ski), stack.OpDiscoveryReply(p.Ski, p.Msg(0, nil)))
 				connected[p.Ski] = true
 				features["reconnect"]++
+			} else {
+				// binding through the node-management feature before the discovery reply, then the reply
+				h = append(h, stack.OpConnect(p.Ski))
+				connected[p.Ski] = true
+				h = append(h, stack.OpBindCall(p.Ski, next(p.Ski), r.Bool(), p.NMAddr(false), stack.NodeMgmt.Addr(true), 6))
+				if r.Bool() {
+					lf := pl.Local[r.Intn(len(pl.Local))]
+					h = append(h, stack.OpBindCall(p.Ski, next(p.Ski), r.Bool(), p.Addr(p.Feats[r.Intn(len(p.Feats))], false), lf.Addr(true), lf.Type+1))
+				}
+				h = append(h, stack.OpListBinds(p.Ski), stack.OpDiscoveryReply(p.Ski, p.Msg(0, nil)), stack.OpListBinds(p.Ski))
+				features["pre-reply-binding-then-reply"]++
 			}
 			for _, g := range grants {
 				if g.p.Ski == p.Ski && r.Chance(1, 2) {
@@ -239,7 +250,16 @@ func gen(r *hx.Rng, tier string, i int) []hx.Zs {
 				if r.Chance(1, 3) {
 					st = 1
 				}
-				h = append(h, stack.OpDiscoveryNotify(p.Ski, next(p.Ski), r.Bool(), p.Msg(st, [][]int64{e})))
+				switch {
+				case r.Chance(1, 4):
+					h = append(h, stack.OpDiscoveryNotify(p.Ski, next(p.Ski), r.Bool(), p.MixedNotify(r)))
+					features["notification-mixing-added-and-removed"]++
+				case r.Chance(1, 3):
+					h = append(h, stack.OpDiscoveryReply(p.Ski, p.PartialReply(r)))
+					features["reply-omitting-entities"]++
+				default:
+					h = append(h, stack.OpDiscoveryNotify(p.Ski, next(p.Ski), r.Bool(), p.Msg(st, [][]int64{e})))
+				}
 				features["entity-removed-or-readded"]++
 				for _, g := range grants {
 					if g.p.Ski == p.Ski && r.Chance(1, 2) {
